@@ -28,7 +28,14 @@ def main():
             results[p] = {"exit": r.returncode, "lines": lines[:6], "wall_s": round(time.time() - t0, 1)}
             print(p, r.returncode, lines[:3])
     finally:
-        sh("git -C /repo checkout -- .")
+        # undo exactly the patch (it may have added files, which a checkout would leave behind)
+        if sh("git -C /repo apply -R %s" % patch).returncode != 0:
+            sh("git -C /repo checkout -- .")
+            for line in open(patch):
+                if line.startswith("+++ b/"):
+                    f = os.path.join("/repo", line[6:].strip())
+                    if sh("git -C /repo ls-files --error-unmatch %s" % f).returncode != 0 and os.path.exists(f):
+                        os.remove(f)
     out = os.path.join(VERIF, "seeded", seed, "result.json")
     old = json.load(open(out)) if os.path.exists(out) else {}
     old.setdefault(tier, {}).update(results)
